@@ -195,7 +195,32 @@ func (env *SpecEnv) Eval(e *Expr) (SpecVal, error) {
 	case EQuant:
 		return env.quant(e)
 	case ESlice:
-		return SpecVal{}, fmt.Errorf("slice expression only allowed in modifies / seq builtins")
+		x, err := env.Eval(e.Args[0])
+		if err != nil {
+			return SpecVal{}, err
+		}
+		sl, ok := x.Ty.Underlying().(*types.Slice)
+		if x.Ty == nil || !ok {
+			return SpecVal{}, fmt.Errorf("slice expression on non-slice %s", e.Args[0].String())
+		}
+		lo := IntLit(0)
+		hi := SLen(x.T)
+		if e.Args[1] != nil {
+			v, err := env.Eval(e.Args[1])
+			if err != nil {
+				return SpecVal{}, err
+			}
+			lo = vc.toIndex(v.T, v.Ty)
+		}
+		if e.Args[2] != nil {
+			v, err := env.Eval(e.Args[2])
+			if err != nil {
+				return SpecVal{}, err
+			}
+			hi = vc.toIndex(v.T, v.Ty)
+		}
+		k := vc.tt.Slots(sl.Elem())
+		return SpecVal{T: MkSlice(ElemAddr(SBase(x.T), lo, k), Sub(hi, lo), Sub(SCap(x.T), lo)), Ty: x.Ty}, nil
 	}
 	return SpecVal{}, fmt.Errorf("cannot evaluate %s", e.String())
 }
@@ -208,6 +233,10 @@ func (env *SpecEnv) ident(name string) (SpecVal, error) {
 		if v, ok := env.lookup(name); ok {
 			return v, nil
 		}
+	}
+	if gv, ok := env.vc.ctx.ghostVars[name]; ok {
+		t, ty, err := env.vc.ghostVar(env.cur, gv)
+		return SpecVal{T: t, Ty: ty}, err
 	}
 	if env.pkg != nil {
 		if obj := env.pkg.Scope().Lookup(name); obj != nil {
@@ -232,6 +261,9 @@ func (env *SpecEnv) object(obj types.Object) (SpecVal, error) {
 		t, err := vc.constTerm(o.Val(), o.Type())
 		return SpecVal{T: t, Ty: o.Type()}, err
 	case *types.Var:
+		if t, ok := vc.sentinel(o); ok {
+			return SpecVal{T: t, Ty: o.Type()}, nil
+		}
 		// package-level variable: load from its global cell
 		addr := vc.globalAddr(o)
 		st := env.cur
@@ -491,6 +523,32 @@ func derefNamed(t types.Type) types.Type {
 
 func (env *SpecEnv) field(e *Expr) (SpecVal, error) {
 	vc := env.vc
+	// package-qualified identifier: pkg.Name
+	if id := e.Args[0]; id.Kind == EIdent {
+		if _, isVar := env.vars[id.Name]; !isVar {
+			isLocal := false
+			if env.lookup != nil {
+				_, isLocal = env.lookup(id.Name)
+			}
+			if !isLocal && env.pkg != nil && env.pkg.Scope().Lookup(id.Name) == nil {
+				for _, imp := range env.pkg.Imports() {
+					if imp.Name() == id.Name {
+						if obj := imp.Scope().Lookup(e.Op); obj != nil {
+							return env.object(obj)
+						}
+						return SpecVal{}, fmt.Errorf("%s.%s not found", id.Name, e.Op)
+					}
+				}
+				for _, tp := range vc.ctx.typePkgs {
+					if tp.Name() == id.Name {
+						if obj := tp.Scope().Lookup(e.Op); obj != nil {
+							return env.object(obj)
+						}
+					}
+				}
+			}
+		}
+	}
 	x, err := env.Eval(e.Args[0])
 	if err != nil {
 		return SpecVal{}, err
@@ -574,12 +632,12 @@ func (env *SpecEnv) addrOf(e *Expr) (Term, types.Type, error) {
 		if err == nil && x.Ty != nil {
 			if sl, ok := x.Ty.Underlying().(*types.Slice); ok {
 				k := vc.tt.Slots(sl.Elem())
-				return RefAdd(SBase(x.T), Mul(idx, IntLit(k))), sl.Elem(), nil
+				return ElemAddr(SBase(x.T), idx, k), sl.Elem(), nil
 			}
 			if el := derefNamed(x.Ty); el != nil {
 				if arr, ok := el.Underlying().(*types.Array); ok {
 					k := vc.tt.Slots(arr.Elem())
-					return RefAdd(x.T, Add(IntLit(1), Mul(idx, IntLit(k)))), arr.Elem(), nil
+					return ElemAddr(RefAdd(x.T, IntLit(1)), idx, k), arr.Elem(), nil
 				}
 			}
 		}
@@ -589,7 +647,7 @@ func (env *SpecEnv) addrOf(e *Expr) (Term, types.Type, error) {
 		}
 		if arr, ok := t.Underlying().(*types.Array); ok {
 			k := vc.tt.Slots(arr.Elem())
-			return RefAdd(b, Add(IntLit(1), Mul(idx, IntLit(k)))), arr.Elem(), nil
+			return ElemAddr(RefAdd(b, IntLit(1)), idx, k), arr.Elem(), nil
 		}
 		return Term{}, nil, fmt.Errorf("cannot take address of index expression %s", e.String())
 	case EUnary:
@@ -640,7 +698,7 @@ func (env *SpecEnv) index(e *Expr) (SpecVal, error) {
 	switch u := x.Ty.Underlying().(type) {
 	case *types.Slice:
 		k := vc.tt.Slots(u.Elem())
-		addr := RefAdd(SBase(x.T), Mul(vc.toIndex(i.T, i.Ty), IntLit(k)))
+		addr := ElemAddr(SBase(x.T), vc.toIndex(i.T, i.Ty), k)
 		v, err := vc.loadRaw(env.cur, addr, u.Elem())
 		if err != nil {
 			return SpecVal{}, err
@@ -651,7 +709,7 @@ func (env *SpecEnv) index(e *Expr) (SpecVal, error) {
 	case *types.Pointer:
 		if arr, ok := u.Elem().Underlying().(*types.Array); ok {
 			k := vc.tt.Slots(arr.Elem())
-			addr := RefAdd(x.T, Add(IntLit(1), Mul(vc.toIndex(i.T, i.Ty), IntLit(k))))
+			addr := ElemAddr(RefAdd(x.T, IntLit(1)), vc.toIndex(i.T, i.Ty), k)
 			v, err := vc.loadRaw(env.cur, addr, arr.Elem())
 			if err != nil {
 				return SpecVal{}, err
@@ -745,6 +803,38 @@ func (env *SpecEnv) call(e *Expr) (SpecVal, error) {
 		v, err := sub.Eval(args[0])
 		env.assumes = append(env.assumes, sub.assumes...)
 		return v, err
+	case "visited":
+		// visited(k): k has been produced by the (unique) map range in scope
+		as, err := evalArgs()
+		if err != nil || len(as) != 1 {
+			return SpecVal{}, fmt.Errorf("visited(k): %v", err)
+		}
+		var found []Term
+		for k, g := range env.cur.ghost {
+			if strings.HasPrefix(k, "visited!") {
+				found = append(found, g)
+			}
+		}
+		if len(found) != 1 {
+			return SpecVal{}, fmt.Errorf("visited(): %d map ranges in scope", len(found))
+		}
+		kt := as[0].T
+		if as[0].Lit != nil {
+			kt = env.litTerm(as[0].Lit, arrayKeySort(found[0].Sort))
+		}
+		return SpecVal{T: Select(found[0], kt)}, nil
+	case "fresh":
+		as, err := evalArgs()
+		if err != nil || len(as) != 1 {
+			return SpecVal{}, fmt.Errorf("fresh(x): %v", err)
+		}
+		switch as[0].T.Sort {
+		case SRef:
+			return SpecVal{T: Ge(Rid(as[0].T), env.old.alloc)}, nil
+		case SSlice:
+			return SpecVal{T: Ge(Rid(SBase(as[0].T)), env.old.alloc)}, nil
+		}
+		return SpecVal{}, fmt.Errorf("fresh() of %s", as[0].T.Sort)
 	case "len", "cap":
 		as, err := evalArgs()
 		if err != nil || len(as) != 1 {
@@ -767,7 +857,7 @@ func (env *SpecEnv) call(e *Expr) (SpecVal, error) {
 		case *types.Basic:
 			r = App(SInt, "strlen", x.T)
 		case *types.Map:
-			r = Select(vc.mapHeap(env.cur, "len", "", ""), Rid(x.T))
+			r = Ite(Eq(Rid(x.T), IntLit(0)), IntLit(0), Select(vc.mapHeap(env.cur, "len", "", ""), Rid(x.T)))
 		case *types.Pointer:
 			if arr, ok := u.Elem().Underlying().(*types.Array); ok {
 				r = IntLit(arr.Len())
@@ -821,7 +911,7 @@ func (env *SpecEnv) call(e *Expr) (SpecVal, error) {
 		if as[1].Lit != nil {
 			kt = env.litTerm(as[1].Lit, ks)
 		}
-		return SpecVal{T: Select(Select(vc.mapHeap(env.cur, "dom", ks, vs), Rid(as[0].T)), kt)}, nil
+		return SpecVal{T: And(Neq(Rid(as[0].T), IntLit(0)), Select(Select(vc.mapHeap(env.cur, "dom", ks, vs), Rid(as[0].T)), kt))}, nil
 	case "min", "max":
 		as, err := evalArgs()
 		if err != nil || len(as) != 2 {
@@ -951,6 +1041,9 @@ func (env *SpecEnv) call(e *Expr) (SpecVal, error) {
 	if pf, ok := vc.ctx.pures[env.pkgPath()+"."+name]; ok {
 		return env.callPure(pf, args)
 	}
+	if gf, ok := vc.ctx.ghosts[env.pkgPath()+"."+name]; ok {
+		return env.callGhost(gf, args)
+	}
 	// contracted Go function used as a spec function (lemmas)
 	if env.pkg != nil {
 		if fc := vc.ctx.contractFor(env.pkg.Path(), name); fc != nil {
@@ -965,6 +1058,63 @@ func (env *SpecEnv) pkgPath() string {
 		return ""
 	}
 	return env.pkg.Path()
+}
+
+func (env *SpecEnv) callGhost(gf *GhostFunc, args []*Expr) (SpecVal, error) {
+	vc := env.vc
+	if len(args) != len(gf.Params) {
+		return SpecVal{}, fmt.Errorf("ghost func %s: want %d arguments", gf.Name, len(gf.Params))
+	}
+	genv := &SpecEnv{vc: vc, pkg: vc.ctx.typesPkg(gf.PkgPath)}
+	var sorts []Sort
+	var terms []Term
+	for i, p := range gf.Params {
+		v, err := env.Eval(args[i])
+		if err != nil {
+			return SpecVal{}, err
+		}
+		ty, err := genv.resolveTypeName(p.Type)
+		if err != nil {
+			return SpecVal{}, err
+		}
+		var srt Sort = SInt
+		if ty != nil {
+			srt, err = vc.tt.SortOf(ty)
+			if err != nil {
+				return SpecVal{}, err
+			}
+		}
+		t := v.T
+		if v.Lit != nil {
+			t = env.litTerm(v.Lit, srt)
+		}
+		if t.Sort != srt {
+			return SpecVal{}, fmt.Errorf("ghost func %s: argument %d has sort %s, want %s", gf.Name, i, t.Sort, srt)
+		}
+		sorts = append(sorts, srt)
+		terms = append(terms, t)
+	}
+	var rty types.Type
+	var rs Sort = SInt
+	if gf.Result == "bool" {
+		rs = SBool
+	} else if gf.Result != "" && gf.Result != "mathint" {
+		var err error
+		rty, err = genv.resolveTypeName(gf.Result)
+		if err != nil {
+			return SpecVal{}, err
+		}
+		rs, err = vc.tt.SortOf(rty)
+		if err != nil {
+			return SpecVal{}, err
+		}
+	}
+	name := "ghost!" + sanitize(gf.PkgPath+"."+gf.Name)
+	vc.DeclareFun(name, sorts, rs)
+	if len(terms) == 0 {
+		return SpecVal{T: Term{name, rs}, Ty: rty}, nil
+	}
+	return SpecVal{T: App(rs, name, terms...), Ty: rty}, nil
 }
 
 func (env *SpecEnv) callPure(pf *PureFunc, args []*Expr) (SpecVal, error) {
